@@ -86,6 +86,61 @@ Definition effective_client (c : client_cfg) (cs : list client_cfg) : client_cfg
 Definition session_intent (j : option json_cfg) (c : client_cfg) (cs : list client_cfg) : intent :=
   intent_of j (effective_client c cs).
 
+(* ---- unsaved buffers -------------------------------------------------------------------------------------------
+   What the client should hold for each file while files are edited and the settings change.
+     - A file with unsaved edits shows the syntax errors of its buffer, as far as the configuration of the moment
+       allows them; if none is left it shows the diagnostics of its saved text without the syntax errors (they belong
+       to a text the user no longer sees).  An edit of a file that an ignore rule takes out of the analysis changes
+       nothing.
+     - A settings change that takes effect is a fresh start with the new intent: the workspace is analysed again as it
+       is on disk, and every file shows exactly what the new intent allows of that run - in particular nothing the new
+       configuration excludes, whichever files have unsaved edits.  (The unsaved syntax errors come back with the next
+       edit, as far as the new configuration allows them.)
+     - A notification takes effect unless luahelper.json rules (the client is ignored) or it is the first one of the
+       session (the client's start-up synchronisation of the settings it already sent, see effective_client). *)
+Section SpecLive.
+  Variable re_ok : path -> bool.
+  Variable re_match : path -> path -> bool.
+  Variable raw : list path -> list Config.diag.
+  Notation diag := Config.diag.
+
+  Definition spec_file_view (i : intent) (root : path) (files : list path) : path -> list diag :=
+    fun f => of_file f (spec_shown re_ok re_match raw i root files).
+
+  Definition spec_edit (i : intent) (root : path) (files : list path) (v : path -> list diag)
+             (f : path) (errs : list diag) : path -> list diag :=
+    if negb (spec_handled re_ok re_match i f) then v else
+    let allowed := filter (fun d => negb (spec_excluded re_ok re_match i root d)) errs in
+    if negb (is_nil allowed) then publish f allowed v
+    else publish f (no_syntax (spec_file_view i root files f)) v.
+
+  (* cs = the notifications received before this one *)
+  Definition spec_takes_effect (j : option json_cfg) (cs : list client_cfg) : bool :=
+    match j with Some _ => false | None => negb (is_nil cs) end.
+
+  Fixpoint spec_steps (j : option json_cfg) (c : client_cfg) (root : path) (files : list path)
+           (cs : list client_cfg) (v : path -> list diag) (evs : list event) {struct evs} : path -> list diag :=
+    match evs with
+    | [] => v
+    | EEdit f errs :: evs' =>
+        spec_steps j c root files cs (spec_edit (session_intent j c cs) root files v f errs) evs'
+    | ESettings c' :: evs' =>
+        spec_steps j c root files (cs ++ [c'])
+                   (if spec_takes_effect j cs then spec_file_view (session_intent j c (cs ++ [c'])) root files else v) evs'
+    end.
+
+  Definition spec_view (j : option json_cfg) (c : client_cfg) (root : path) (files : list path) (evs : list event)
+    : path -> list diag :=
+    spec_steps j c root files [] (spec_file_view (session_intent j c []) root files) evs.
+End SpecLive.
+
+(* the edits of a history are well formed: the syntax errors of the buffer of file f are diagnostics of f, type 1 *)
+Definition edits_wf (evs : list event) : bool :=
+  forallb (fun e => match e with
+                    | EEdit f errs => forallb (fun d => same_file f d && (d_type d =? check_error_syntax)) errs
+                    | ESettings _ => true
+                    end) evs.
+
 (* ---- where the code departed from the law before the repairs: class predicates (mirrors of the negated guards);
    with every repair in (fx = deployed) all of them are constantly false (Proofs/ConfigProofs.v) ---- *)
 
@@ -155,4 +210,10 @@ Section Classes.
      the per-file predicate does not follow the intent *)
   Definition cls_ignore_sites (g : gconf) (i : intent) (files : list path) : bool :=
     existsb (fun rel => negb (sites_ok_at g i rel)) files.
+
+  (* class of the unsaved-buffer defect (mirror of the negated guard fx_live): a settings change that takes effect meets
+     a remembered unsaved buffer of a file without saved diagnostics - nothing clears what that file shows *)
+  Definition cls_live_stale (st : lsp) : bool :=
+    negb (fx_live fx) && effective (l_srv st)
+    && existsb (fun f => is_nil (of_file f (l_disk st))) (l_live st).
 End Classes.
